@@ -12,7 +12,7 @@ CHECK = {
          '(curve value, fresh controller with device pwm 0..255); steady value S(v) is what plain direct produces; every start must reach S(v) within ceil(255/m)+2 cycles, '
          'moving monotonically by at most m per cycle. PID (default gains): every history of up to 2 (quick) / 3 (thorough) phases from a catalogue (idle at 0/255 for 1 s, 1 min, 1 h, '
          'step, saw-tooth, 10-minute start-up gap) x curve values x tick periods (quick: 200 ms, and 2 s with one-phase histories; thorough: 50 ms, 200 ms, 2 s) x limits, in virtual time; must settle within 3*K_fresh+10 cycles (K_fresh = worst settle index of fresh controllers in the same run) '
-         'within 1 step of S(v). distinct_nontrivial = (curve value, start state) pairs / (history, curve value) runs that satisfied the oracle. Controller factory run: fans built by the real initializeFanControllers (default, pid, deprecated controlLoop, rate-limited direct, plain direct, direct: {}) with real Run loops; plain direct must be at its steady value from the first regulation cycle, every algorithm must settle at the plain-direct value while another fans curve toggles.',
+         'within 1 step of S(v). distinct_nontrivial = (curve value, start state) pairs / (history, curve value) runs that satisfied the oracle. Controller factory run: fans built by the real initializeFanControllers (default, pid, deprecated controlLoop, rate-limited direct, plain direct, direct: {}) with real Run loops; plain direct must be at its steady value from the first regulation cycle, every algorithm must settle at the plain-direct value while another fans curve toggles. For fans that are not never-stop, closed loops at constant curve value with the fan reporting 0 RPM must settle at the same steady value and stay there.',
  'assumptions': COMMON_ASSUME + ['settled := request constant for ceil(0.5/(I*dt))+30 cycles (worst-case integral creep for a remaining error of 1)'],
  'level_text': 'direct algorithms: every state and every input of the (memoryless) controller step, i.e. the complete transition relation, decided exhaustively per configuration; PID: bounded exhaustive catalogue',
  'level_note': 'limits on a grid (step 51 quick / 17 thorough) plus edge ranges; maxPwmChangePerCycle from a list; PID only for the default gains; table validated against untouched closed-loop runs',
